@@ -1227,3 +1227,44 @@ Proof.
   destruct (match rep t0 with Some r0 => do_start fuel' p' t0 (TNum (r_end r0)) true | None => (t0, ResRefused) end) as [t1 rs1].
   cbn [fst] in *. intros P1 I1 P2 I2. destruct (H P1 I1 P2 I2) as [(_&_&_&T&_) K]. auto.
 Qed.
+
+(* ------------------------------------------------------------------ *)
+(** * The boundary at the end time, refuted as a general statement
+
+    "Any segmentation gives the uninterrupted run" is false without the
+    hypothesis that the replication ENDED: a run that pauses exactly at the end
+    time while events at that time are still pending (here: by two steps) is
+    STOPPED / STARTED with the clock at the end; every run command is then
+    refused, the remaining event never runs, the replication never ends. *)
+Definition end_prog : program :=
+  [ [ASched (MAbs (TNum 28)) 5 1; ASched (MAbs (TNum 32)) 5 1; ASched (MAbs (TNum 32)) 5 1]; [] ].
+Definition end_s0 : sim := fst (do_cmd 100 end_prog (init_sim SWarnPause) (CInit (mkRepl 0 0 32))).
+Definition end_cuts : list cmd := [CRunUpTo (TNum 28); CStep; CStep].
+Definition end_s1 : sim := fst (run_cmds 100 end_prog end_s0 end_cuts).
+Definition end_t1 : sim := fst (do_cmd 100 end_prog end_s0 CStart).
+
+Theorem segmentation_without_ended_refuted :
+  exists p s cs,
+    Quiet s /\ forallb is_runcmd cs = true /\
+    let s1 := fst (run_cmds 100 p s cs) in
+    let t1 := fst (do_cmd 100 p s CStart) in
+    ps t1 = PEnded /\ incl t1 = true /\ flag t1 = false /\ flag s1 = false
+    /\ ps s1 = PStarted /\ rs s1 = RStopped /\ clock s1 = end_time s1 /\ length (pend s1) = 1%nat
+    /\ length (trace s1) = 3%nat /\ length (trace t1) = 4%nat
+    /\ (forall c fuel, is_runcmd c = true -> do_cmd fuel p s1 c = (s1, ResRefused)).
+Proof.
+  exists end_prog, end_s0, end_cuts.
+  split; [left; apply do_init_live; reflexivity|]. split; [reflexivity|]. cbv zeta.
+  change (fst (run_cmds 100 end_prog end_s0 end_cuts)) with end_s1.
+  change (fst (do_cmd 100 end_prog end_s0 CStart)) with end_t1.
+  assert (S1 : start_checks end_s1 = false) by (vm_compute; reflexivity).
+  assert (S2 : step_checks end_s1 = false) by (vm_compute; reflexivity).
+  assert (R1 : running end_s1 = false) by (vm_compute; reflexivity).
+  repeat (split; [vm_compute; reflexivity|]).
+  intros c fuel Hc. destruct c; try discriminate; cbn [do_cmd]; auto.
+  - destruct (rep end_s1); auto. unfold do_start. rewrite S1. reflexivity.
+  - unfold do_step. rewrite S2. reflexivity.
+  - rewrite R1. reflexivity.
+  - unfold do_start. rewrite S1. reflexivity.
+  - unfold do_start. rewrite S1. reflexivity.
+Qed.
